@@ -61,6 +61,10 @@ def _build_c09(inputs):
             paths["raw"] = w.file("raw.img", raw)
             paths["2352"] = w.file("sect.img", L.aw.wrap_2352(raw))
             paths["mdx"] = w.file("img.mdx", L.aw.wrap_mdx(raw))
+            # the same sectors dumped from a data track that does not begin at 00:02:00 (behind audio tracks / in a later session):
+            # BCD address bytes with seconds >= 40 and frames >= 50 (0x40.., 0x50.. as raw values)
+            for tag, addr in inputs.get("late_2352", {}).items():
+                paths["2352@" + tag] = w.file(f"sect_{tag.replace(':', '_')}.img", L.aw.wrap_2352(raw, first_address=addr))
             d1 = w.sub("cue_raw")
             with open(os.path.join(d1, "data.bin"), "wb") as f:
                 f.write(raw)
@@ -133,7 +137,10 @@ def _oracle_c09(inputs, kind, val, env):
 
 
 def _small_c09(tier, seed, shard=(0, 1)):
-    cases = [{"kind": "akai", "model": _base_akai()}, {"kind": "roland", "model": _base_roland()},
+    late = {"00:02:62": 2 * 75 + 62, "00:47:10": 47 * 75 + 10, "12:51:68": (12 * 60 + 51) * 75 + 68, "79:59:74": (79 * 60 + 59) * 75 + 74 - 600}
+    long_head = "".join(f'REM ripping log line {i:04d}: read ok, no errors, crc 0000000 (padding padding padding)\n' for i in range(140))     # > 8 KiB of 7-bit text
+    cases = [{"kind": "akai", "model": _base_akai(), "late_2352": late}, {"kind": "roland", "model": _base_roland(), "late_2352": {"00:47:10": 47 * 75 + 10}},
+             {"kind": "akai", "model": _base_akai(2), "cue_header": long_head[:long_head.index("\n", 4200) + 1]}, {"kind": "akai", "model": _base_akai(3), "cue_header": long_head},
              {"kind": "akai", "model": {"partitions": [{"volumes": [_vol("V", [_sample("ONE", 4026, 1)])]}]}, "pad": 0},
              # trimmed dumps (the last partition declares more sectors than the file holds) and the disc-level cue commands rippers write
              {"kind": "akai", "model": _base_akai(4), "trim": 3 * 2048,
@@ -158,7 +165,7 @@ def _c09(c):
 CONCRETE["e2e:C09"] = {
     "build": _build_c09, "small": _small_c09, "oracle": _oracle_c09, "shards": 5,
     "nontrivial": lambda i, s: s["kind"] == "return",
-    "bound": "5 (quick) / 10 (thorough) generated AKAI and Roland images (two of them trimmed dumps, with disc-level CATALOG/PERFORMER/TITLE/REM lines in the cue sheets) x {raw, MODE1/2352, MDX, cue->raw, cue->2352}; image sizes that are "
+    "bound": "5 (quick) / 10 (thorough) generated AKAI and Roland images (two of them trimmed dumps, with disc-level CATALOG/PERFORMER/TITLE/REM lines in the cue sheets) x {raw, MODE1/2352 (first sector at 00:02:00 and at four later BCD addresses), MDX, cue->raw, cue->2352, cue with an audio track, cue naming a sub-directory}; cue sheets of 4.2 KiB and 12 KiB; image sizes that are "
              "and are not multiples of 2048; ls compared at every level reachable through printed names; exports compared byte for byte",
     "timeout_s": 120.0, "budget_quick": 200, "budget_thorough": 900,
 }
